@@ -390,13 +390,21 @@ func (e *Engine) builderKeys() {
 	e.heapKeyRaw("H.strings.Builder.nbytes", "Int")
 }
 
-func (e *Engine) boxKey(sort string) string {
-	return e.heapKeyRaw("Box."+sortID(sort), sort)
+func typeID(t types.Type) string {
+	s := types.TypeString(t, func(p *types.Package) string { return p.Name() })
+	r := strings.NewReplacer("*", "P", "[", "L", "]", "J", " ", "_", "{", "", "}", "", "(", "", ")", "", ",", "_", ";", "_", "/", "_")
+	return r.Replace(s)
+}
+
+// boxKey: heap array for pointers to non-struct values (captured variables, *int, *string), per Go type
+func (e *Engine) boxKey(t types.Type) string {
+	sort := e.sortOf(t)
+	return e.heapKeyRaw("Box."+typeID(t), sort)
 }
 
 func (e *Engine) mapKeys(m *types.Map) (dom, val, ln string) {
 	ks, vs := e.sortOf(m.Key()), e.sortOf(m.Elem())
-	id := sortID(ks) + "." + sortID(vs)
+	id := typeID(m.Key()) + "." + typeID(m.Elem())
 	dom = e.heapKeyRaw("Mdom."+id, "(Array "+ks+" Bool)")
 	val = e.heapKeyRaw("Mval."+id, "(Array "+ks+" "+vs+")")
 	ln = e.heapKeyRaw("Mlen."+id, "Int")
